@@ -1392,7 +1392,7 @@ class TrigInfo:
             func_args,
         )
 
-        async def do_func_call(func, ast_ctx, task_unique, task_unique_func, hass_context, **kwargs):
+        async def do_func_call(func, ast_ctx, task_unique, task_unique_func, hass_context, /, **kwargs):
             # Store HASS Context for this Task
             Function.store_hass_context(hass_context)
 
